@@ -44,7 +44,7 @@ man = {
     "engines": [{
         "name": "lean4-proof+correspondence", "path": "/verif/check",
         "serves_properties": sorted(P.PROPS),
-        "kind_free_text": "Lean 4 theorems about hand-written models (lean/Comet, lean/CometProofs) + per-run correspondence check (Go harness drives /repo's code and the compiled Lean model driver on the same generated operation sequences; verified checkers judge implementation answers) + regenerated source facts",
+        "kind_free_text": "Lean 4 theorems about hand-written models (lean/Comet, lean/CometProofs) + per-run correspondence check (Go harness drives /repo's code and the compiled Lean model driver on the same generated operation sequences; verified checkers judge implementation answers) + source facts regenerated from /repo on every run (hard obligations for C08-C11 and C17; elsewhere a changed anchor boosts the correspondence run tenfold and only what that run finds is reported)",
     }],
     "checks": checks,
     "notes": M.NOTES,
